@@ -168,13 +168,21 @@ theorem cleanupGaps_eq (gaps : List Gap) (o : Int) : srcCleanupGaps gaps o = cle
 
 /-! ### `_update_gaps` -/
 
+/-- A timestamp found in some gap means the gap list is not empty (makes the `len(self._gaps) > 0` guard of
+`_update_gaps` redundant, so a source without it has the same translation up to this lemma). -/
+theorem isMissing_pos (gaps : List Gap) (t : Int) (h : isMissing gaps t = true) : 0 < gaps.length := by
+  cases gaps with
+  | nil => simp [isMissing] at h
+  | cons g gs => simp
+
 theorem updateGaps_eq (fr : Int) (gaps : List Gap) (t newest sn o : Int) (rec : Bool) :
     srcUpdateGaps 1 fr gaps sn o t newest rec = updateGaps fr gaps t newest sn o rec := by
   unfold Extracted.RingBufferLoops.updateGaps updateGaps
   simp only [isMissing_eq, removeGap_eq, cleanupGaps_eq, ugJump_iff, ugCreated_iff, ugJumpStart_eq, ugJumpEnd_eq,
     ugCreatedStart_eq, ugCreatedEnd_eq, ugMissingStart_eq, ugMissingEnd_eq, List.length_append, List.length_cons,
     List.length_nil]
-  cases rec <;> cases hf : isMissing gaps t <;> simp <;> split_ifs <;> first | rfl | (exfalso; omega) | (simp; done)
+  cases rec <;> cases hf : isMissing gaps t <;> simp <;> split_ifs <;> first | rfl | (exfalso; omega) | (simp; done) |
+    (exfalso; have := isMissing_pos gaps t hf; omega)
 
 /-! ### `normalize_timestamp`, `has_value`, `wrap`, `to_internal_index` -/
 
